@@ -402,7 +402,30 @@ func (c *Ctx) lexemes() *lexemeTable {
 					}
 					cl, ok := vs.Values[i].(*ast.CompositeLit)
 					if !ok {
-						lt.problems = append(lt.problems, "token.Keywords is not initialised by a composite literal")
+						// assembled at initialisation from literal data (a parameterless builder function, map stores with
+						// constant keys): folded like a constant expression
+						ce := &constEval{c: c, pkg: "token", info: p.TypesInfo}
+						if cv, okf := ce.expr(map[types.Object]*cval{}, vs.Values[i]); okf && cv != nil && cv.isMap {
+							for _, kc := range cv.mkeys {
+								if kc.Kind() != constant.String {
+									lt.problems = append(lt.problems, "non-constant entry in token.Keywords")
+									continue
+								}
+								ev := cv.mp[keyString(kc)]
+								if ev == nil || ev.k == nil {
+									lt.problems = append(lt.problems, "non-constant entry in token.Keywords")
+									continue
+								}
+								tv, okv := constant.Int64Val(constant.ToInt(ev.k))
+								if !okv {
+									lt.problems = append(lt.problems, "non-constant entry in token.Keywords")
+									continue
+								}
+								lt.keywords[constant.StringVal(kc)] = tv
+							}
+							continue
+						}
+						lt.problems = append(lt.problems, "token.Keywords is not initialised by a composite literal (and does not fold: "+ce.fail+")")
 						continue
 					}
 					for _, el := range cl.Elts {
@@ -850,6 +873,36 @@ func (c *Ctx) parserTables() *parserTables {
 	ast.Inspect(pt.ctor.Body, func(n ast.Node) bool {
 		rs, ok := n.(*ast.RangeStmt)
 		if !ok || rs.Value == nil {
+			return true
+		}
+		// a literal list written in the range clause itself: `for _, t := range []token.Type{token.A, token.B} {…}`
+		if cl, isLit := ast.Unparen(rs.X).(*ast.CompositeLit); isLit {
+			if vid, ok := rs.Value.(*ast.Ident); ok {
+				var ks []int64
+				okAll := len(cl.Elts) > 0
+				for _, el := range cl.Elts {
+					k, ok := c.tokConstOf(info, el)
+					if !ok {
+						okAll = false
+						break
+					}
+					ks = append(ks, k)
+				}
+				reassigned := false
+				ast.Inspect(rs.Body, func(m ast.Node) bool {
+					if as, ok := m.(*ast.AssignStmt); ok {
+						for _, l := range as.Lhs {
+							if id, ok := l.(*ast.Ident); ok && info.ObjectOf(id) == info.ObjectOf(vid) {
+								reassigned = true
+							}
+						}
+					}
+					return true
+				})
+				if okAll && !reassigned {
+					rangeKeys[info.ObjectOf(vid)] = ks
+				}
+			}
 			return true
 		}
 		src, ok := ast.Unparen(rs.X).(*ast.Ident)
